@@ -65,9 +65,11 @@ theorem bind_ok {ε α β} {x : Except ε α} {f : α → Except ε β} {b : β}
   | error e => simp [bind, Except.bind] at h
   | ok a => exact ⟨a, rfl, by simpa [bind, Except.bind] using h⟩
 
-theorem buildScope_shape (g : Gen) (env : Env) (srcs' : List Src) (s s' : Scope)
-    (h : buildScope g env srcs' s = .ok s') : s'.srcs = srcs' ∧ s'.outer = [] := by
-  unfold buildScope at h
+theorem buildCore_shape (g : Gen) (env : Env) (srcs' : List Src) (ct : ColTables) (jgs : List (Join × Bool))
+    (replaced : Bool) (skip : List String) (s s' : Scope)
+    (h : buildCore g env srcs' ct jgs replaced skip s = .ok s') : s'.srcs = srcs' ∧ s'.outer = [] := by
+  unfold buildCore at h
+  obtain ⟨_, _, h⟩ := bind_ok h
   obtain ⟨_, _, h⟩ := bind_ok h
   obtain ⟨_, _, h⟩ := bind_ok h
   obtain ⟨_, _, h⟩ := bind_ok h
@@ -81,6 +83,21 @@ theorem buildScope_shape (g : Gen) (env : Env) (srcs' : List Src) (s s' : Scope)
     simp [pure, Except.pure] at h
     subst h
     exact ⟨rfl, rfl⟩
+
+/-- `buildScope` is step U followed by `buildCore` -/
+theorem buildScope_core (g : Gen) (env : Env) (srcs' : List Src) (s s' : Scope)
+    (h : buildScope g env srcs' s = .ok s') :
+    ∃ ct jgs replaced skip s1, buildCore g env srcs' ct jgs replaced skip s1 = .ok s' := by
+  unfold buildScope at h
+  split at h
+  · simp at h
+  · obtain ⟨u, _, h⟩ := bind_ok h
+    exact ⟨_, _, _, _, _, h⟩
+
+theorem buildScope_shape (g : Gen) (env : Env) (srcs' : List Src) (s s' : Scope)
+    (h : buildScope g env srcs' s = .ok s') : s'.srcs = srcs' ∧ s'.outer = [] := by
+  obtain ⟨ct, jgs, replaced, skip, s1, hc⟩ := buildScope_core g env srcs' s s' h
+  exact buildCore_shape g env srcs' ct jgs replaced skip s1 s' hc
 
 /-! ### stars -/
 
@@ -190,6 +207,7 @@ theorem expand_fixed (env : Env) (m : AMap) (cl : Clause) (names : List String) 
     intro ctx h
     simp only [visible] at h
     simp [expand, ih _ h]
+  | coalesce args => intro _ _; rfl
 
 def AllAliased : List Proj → Prop
   | [] => True
@@ -254,5 +272,1423 @@ theorem qualifyOutputs_allAliased (cn : Nat → String) :
       simp only [hasStar] at h
       simp only [qualifyOutputs, AllAliased]
       exact ih _ _ h
+
+/-! ## pipeline-level idempotence -/
+
+/-- every qualified column under `e` passes the `Unknown column` test -/
+def ColOk (env : Env) : Expr → Bool
+  | .col (some t) n => colCheck env t n
+  | .col none _ => true
+  | .lit _ => true
+  | .bin _ l r => ColOk env l && ColOk env r
+  | .paren e => ColOk env e
+  | .coalesce args => args.all (fun a => colCheck env a.1 a.2)
+
+def ProjOk (env : Env) : Proj → Bool
+  | .star _ _ => true
+  | .item e _ => ColOk env e
+
+theorem qcol_some (env : Env) (skip : List String) (t n : String) :
+    qcol env skip (.col (some t) n) = if colCheck env t n then .ok (.col (some t) n) else .error .optimize := rfl
+
+theorem qcolHaving_some (env : Env) (t n : String) :
+    qcolHaving env (.col (some t) n) = if colCheck env t n then .ok (.col (some t) n) else .error .optimize := rfl
+
+theorem find_of_mem_nodup : ∀ (env : Env) (e : String × List String),
+    hasDup (envNames env) = false → e ∈ env → env.find? (fun x => x.1 == e.1) = some e := by
+  intro env
+  induction env with
+  | nil => intro e _ h; simp at h
+  | cons h rest ih =>
+    intro e hd he
+    have hd2 : ((envNames rest).contains h.1 || hasDup (envNames rest)) = false := hd
+    obtain ⟨hnc, hd'⟩ := Bool.or_eq_false_iff.mp hd2
+    simp only [List.mem_cons] at he
+    rcases he with rfl | he
+    · simp [List.find?]
+    · have hne : (h.1 == e.1) = false := by
+        cases hq : (h.1 == e.1) with
+        | false => rfl
+        | true =>
+          have h1 : h.1 = e.1 := by simpa using hq
+          have hm : e.1 ∈ envNames rest := List.mem_map.mpr ⟨e, he, rfl⟩
+          rw [← h1] at hm
+          have h2 : (envNames rest).contains h.1 = true := by simpa using hm
+          rw [h2] at hnc
+          exact absurd hnc (by simp)
+      simp only [List.find?, hne]
+      exact ih e hd' he
+
+theorem envCols_of_mem (env : Env) (t : String) (cols : List String)
+    (hd : hasDup (envNames env) = false) (he : (t, cols) ∈ env) : envCols env t = some cols := by
+  unfold envCols
+  rw [find_of_mem_nodup env (t, cols) hd he]
+  rfl
+
+theorem unique_colCheck (env : Env) (n t : String) (hd : hasDup (envNames env) = false)
+    (h : unique env n = some t) : colCheck env t n = true := by
+  unfold unique at h
+  split at h
+  · rename_i e hf
+    simp at h
+    subst h
+    have hm : e ∈ env.filter (fun e => e.2.contains n) := by rw [hf]; simp
+    rw [List.mem_filter] at hm
+    obtain ⟨he, hc⟩ := hm
+    unfold colCheck
+    rw [envCols_of_mem env e.1 e.2 hd he]
+    have hc' : n ∈ e.2 := by simpa using hc
+    simp [hc']
+  · simp at h
+
+theorem qcol_ColOk (env : Env) (skip : List String) (hd : hasDup (envNames env) = false) :
+    ∀ e e' : Expr, qcol env skip e = .ok e' → ColOk env e' = true := by
+  intro e
+  induction e with
+  | col t n =>
+    intro e' h
+    cases t with
+    | some t =>
+      rw [qcol_some] at h
+      split at h
+      · rename_i hc; simp at h; subst h; simpa [ColOk] using hc
+      · simp at h
+    | none =>
+      simp only [qcol] at h
+      split at h
+      · simp at h; subst h; rfl
+      · split at h
+        · rename_i t hu; simp at h; subst h; simpa [ColOk] using unique_colCheck env n t hd hu
+        · simp at h; subst h; rfl
+  | lit k => intro e' h; simp [qcol] at h; subst h; rfl
+  | bin op l r ihl ihr =>
+    intro e' h
+    simp only [qcol] at h
+    obtain ⟨l', hl, h⟩ := bind_ok h
+    obtain ⟨r', hr, h⟩ := bind_ok h
+    simp [pure, Except.pure] at h
+    subst h
+    simp [ColOk, ihl l' hl, ihr r' hr]
+  | paren e ih =>
+    intro e' h
+    simp only [qcol] at h
+    obtain ⟨x, hx, h⟩ := bind_ok h
+    simp [pure, Except.pure] at h
+    subst h
+    simp [ColOk, ih x hx]
+  | coalesce args =>
+    intro e' h
+    simp only [qcol] at h
+    split at h
+    · rename_i hc; simp at h; subst h; simpa [ColOk] using hc
+    · simp at h
+
+theorem qcolHaving_ColOk (env : Env) :
+    ∀ e e' : Expr, qcolHaving env e = .ok e' → ColOk env e' = true := by
+  intro e
+  induction e with
+  | col t n =>
+    intro e' h
+    cases t with
+    | some t =>
+      rw [qcolHaving_some] at h
+      split at h
+      · rename_i hc; simp at h; subst h; simpa [ColOk] using hc
+      · simp at h
+    | none => simp [qcolHaving] at h; subst h; rfl
+  | lit k => intro e' h; simp [qcolHaving] at h; subst h; rfl
+  | bin op l r ihl ihr =>
+    intro e' h
+    simp only [qcolHaving] at h
+    obtain ⟨l', hl, h⟩ := bind_ok h
+    obtain ⟨r', hr, h⟩ := bind_ok h
+    simp [pure, Except.pure] at h
+    subst h
+    simp [ColOk, ihl l' hl, ihr r' hr]
+  | paren e ih =>
+    intro e' h
+    simp only [qcolHaving] at h
+    obtain ⟨x, hx, h⟩ := bind_ok h
+    simp [pure, Except.pure] at h
+    subst h
+    simp [ColOk, ih x hx]
+  | coalesce args =>
+    intro e' h
+    simp only [qcolHaving] at h
+    split at h
+    · rename_i hc; simp at h; subst h; simpa [ColOk] using hc
+    · simp at h
+
+/-- second pass of step B: a checked expression without resolvable bare names is left alone -/
+theorem qcol_fixed (env : Env) (names skip : List String) :
+    ∀ e : Expr, ColOk env e = true → visible names skip e = true → qcol env skip e = .ok e := by
+  intro e
+  induction e with
+  | col t n =>
+    intro hc hv
+    cases t with
+    | some t => rw [qcol_some]; simp [ColOk] at hc; simp [hc]
+    | none =>
+      simp only [visible] at hv
+      simp only [qcol, hv, if_true]
+  | lit k => intro _ _; rfl
+  | bin op l r ihl ihr =>
+    intro hc hv
+    simp only [ColOk, visible, Bool.and_eq_true] at hc hv
+    simp [qcol, ihl hc.1 hv.1, ihr hc.2 hv.2, bind, Except.bind, pure, Except.pure]
+  | paren e ih =>
+    intro hc hv
+    simp only [ColOk, visible] at hc hv
+    simp [qcol, ih hc hv, bind, Except.bind, pure, Except.pure]
+  | coalesce args =>
+    intro hc _
+    simp only [ColOk] at hc
+    simp [qcol, hc]
+
+theorem qcolHaving_fixed (env : Env) :
+    ∀ e : Expr, ColOk env e = true → qcolHaving env e = .ok e := by
+  intro e
+  induction e with
+  | col t n =>
+    intro hc
+    cases t with
+    | some t => rw [qcolHaving_some]; simp [ColOk] at hc; simp [hc]
+    | none => rfl
+  | lit k => intro _; rfl
+  | bin op l r ihl ihr =>
+    intro hc
+    simp only [ColOk, Bool.and_eq_true] at hc
+    simp [qcolHaving, ihl hc.1, ihr hc.2, bind, Except.bind, pure, Except.pure]
+  | paren e ih =>
+    intro hc
+    simp only [ColOk] at hc
+    simp [qcolHaving, ih hc, bind, Except.bind, pure, Except.pure]
+  | coalesce args =>
+    intro hc
+    simp only [ColOk] at hc
+    simp [qcolHaving, hc]
+
+/-! ### list plumbing -/
+
+theorem mapE_forall {α β ε} (f : α → Except ε β) (P : β → Prop) :
+    ∀ (l : List α) (l' : List β), mapE f l = .ok l' → (∀ x y, x ∈ l → f x = .ok y → P y) → ∀ y ∈ l', P y := by
+  intro l
+  induction l with
+  | nil => intro l' h _; simp [mapE] at h; subst h; simp
+  | cons x xs ih =>
+    intro l' h hp
+    simp only [mapE] at h
+    obtain ⟨y, hy, h⟩ := bind_ok h
+    obtain ⟨ys, hys, h⟩ := bind_ok h
+    simp [pure, Except.pure] at h
+    subst h
+    intro z hz
+    simp only [List.mem_cons] at hz
+    rcases hz with rfl | hz
+    · exact hp x z (by simp) hy
+    · exact ih ys hys (fun a b ha hb => hp a b (by simp [ha]) hb) z hz
+
+theorem mapE_fixed {α ε} (f : α → Except ε α) :
+    ∀ l : List α, (∀ x ∈ l, f x = .ok x) → mapE f l = .ok l := by
+  intro l
+  induction l with
+  | nil => intro _; rfl
+  | cons x xs ih =>
+    intro h
+    simp [mapE, h x (by simp), ih (fun y hy => h y (by simp [hy])), bind, Except.bind, pure, Except.pure]
+
+theorem optE_fixed {α ε} (f : α → Except ε α) (o : Option α) (h : ∀ x, o = some x → f x = .ok x) :
+    optE f o = .ok o := by
+  cases o with
+  | none => rfl
+  | some x => simp [optE, h x rfl, bind, Except.bind, pure, Except.pure]
+
+theorem optE_forall {α β ε} (f : α → Except ε β) (P : β → Prop) (o : Option α) (o' : Option β)
+    (h : optE f o = .ok o') (hp : ∀ x y, o = some x → f x = .ok y → P y) : ∀ y, o' = some y → P y := by
+  cases o with
+  | none => simp [optE] at h; subst h; intro y hy; simp at hy
+  | some x =>
+    simp only [optE] at h
+    obtain ⟨y, hy, h⟩ := bind_ok h
+    simp [pure, Except.pure] at h
+    subst h
+    intro z hz
+    simp at hz
+    subst hz
+    exact hp x y rfl hy
+
+/-! ### step C keeps the column checks -/
+
+def MapOk (env : Env) (m : AMap) : Prop := ∀ x ∈ m, ColOk env x.2.1 = true
+
+theorem alookup_mem (m : AMap) (n : String) (ae : Expr) (i : Nat) (h : alookup m n = some (ae, i)) :
+    ∃ k, (k, ae, i) ∈ m := by
+  unfold alookup at h
+  cases hf : m.find? (fun x => x.1 == n) with
+  | none => simp [hf] at h
+  | some x =>
+    simp [hf] at h
+    exact ⟨x.1, by rw [← h]; exact List.mem_of_find?_eq_some hf⟩
+
+theorem substCol_ColOk (env : Env) (m : AMap) (cl : Clause) (ctx : Ctx) (n : String)
+    (hd : hasDup (envNames env) = false) (hm : MapOk env m) : ColOk env (substCol env m cl ctx n) = true := by
+  unfold substCol
+  split
+  · rename_i ae i hl
+    obtain ⟨k, hk⟩ := alookup_mem m n ae i hl
+    have hae : ColOk env ae = true := hm (k, ae, i) hk
+    split
+    · split <;> rfl
+    · split
+      · simpa [ColOk] using hae
+      · exact hae
+  · split
+    · split
+      · rename_i t hu; simpa [ColOk] using unique_colCheck env n t hd hu
+      · rfl
+    · rfl
+
+theorem expand_ColOk (env : Env) (m : AMap) (cl : Clause) (hd : hasDup (envNames env) = false) (hm : MapOk env m) :
+    ∀ (e : Expr) (ctx : Ctx), ColOk env e = true → ColOk env (expand env m cl ctx e) = true := by
+  intro e
+  induction e with
+  | col t n =>
+    intro ctx h
+    cases t with
+    | some t => simpa [expand] using h
+    | none => simpa [expand] using substCol_ColOk env m cl ctx n hd hm
+  | lit k => intro _ _; rfl
+  | bin op l r ihl ihr =>
+    intro ctx h
+    simp only [ColOk, Bool.and_eq_true] at h
+    simp [expand, ColOk, ihl _ h.1, ihr _ h.2]
+  | paren e ih =>
+    intro ctx h
+    simp only [ColOk] at h
+    simp [expand, ColOk, ih _ h]
+  | coalesce args => intro ctx h; simpa [expand] using h
+
+theorem expandProjs_ok (env : Env) (hd : hasDup (envNames env) = false) :
+    ∀ (ps : List Proj) (m : AMap) (i : Nat), MapOk env m → (∀ p ∈ ps, ProjOk env p = true) →
+      (∀ p ∈ (expandProjs env m i ps).1, ProjOk env p = true) ∧ MapOk env (expandProjs env m i ps).2 := by
+  intro ps
+  induction ps with
+  | nil => intro m i hm _; exact ⟨by simp [expandProjs], by simpa [expandProjs] using hm⟩
+  | cons p rest ih =>
+    intro m i hm hp
+    cases p with
+    | star t exc =>
+      obtain ⟨h1, h2⟩ := ih m (i + 1) hm (fun q hq => hp q (by simp [hq]))
+      refine ⟨?_, by simpa [expandProjs] using h2⟩
+      intro q hq
+      simp only [expandProjs, List.mem_cons] at hq
+      rcases hq with rfl | hq
+      · rfl
+      · exact h1 q hq
+    | item e a =>
+      have he : ColOk env e = true := by simpa [ProjOk] using hp (.item e a) (by simp)
+      have he' := expand_ColOk env m .plain hd hm e .root he
+      cases a with
+      | none =>
+        obtain ⟨h1, h2⟩ := ih m (i + 1) hm (fun q hq => hp q (by simp [hq]))
+        refine ⟨?_, by simpa [expandProjs] using h2⟩
+        intro q hq
+        simp only [expandProjs, List.mem_cons] at hq
+        rcases hq with rfl | hq
+        · simpa [ProjOk] using he'
+        · exact h1 q hq
+      | some an =>
+        have hm' : MapOk env ((an, expand env m .plain .root e, i + 1) :: m) := by
+          intro x hx
+          simp only [List.mem_cons] at hx
+          rcases hx with rfl | hx
+          · exact he'
+          · exact hm x hx
+        obtain ⟨h1, h2⟩ := ih _ (i + 1) hm' (fun q hq => hp q (by simp [hq]))
+        refine ⟨?_, by simpa [expandProjs] using h2⟩
+        intro q hq
+        simp only [expandProjs, List.mem_cons] at hq
+        rcases hq with rfl | hq
+        · simpa [ProjOk] using he'
+        · exact h1 q hq
+
+/-- second pass of step C on projections without bare names -/
+theorem expandProjs_fixed (env : Env) (names : List String) :
+    ∀ (ps : List Proj) (m : AMap) (i : Nat), (∀ p ∈ ps, projVisible names p = true) → AllAliased ps →
+      (expandProjs env m i ps).1 = ps := by
+  intro ps
+  induction ps with
+  | nil => intro _ _ _ _; rfl
+  | cons p rest ih =>
+    intro m i hv ha
+    cases p with
+    | star t exc => simp [AllAliased] at ha
+    | item e a =>
+      cases a with
+      | none => simp [AllAliased] at ha
+      | some a =>
+        simp only [AllAliased] at ha
+        have he : visible names [] e = true := by simpa [projVisible] using hv (.item e (some a)) (by simp)
+        simp [expandProjs, expand_fixed env m .plain names e .root he, ih _ _ (fun q hq => hv q (by simp [hq])) ha]
+
+/-! ### steps D, E, F keep the column checks -/
+
+theorem starCols_ok (env : Env) (t : String) (exc cols : List String) (h : envCols env t = some cols) :
+    ∀ q ∈ starCols t exc cols, ProjOk env q = true := by
+  intro q hq
+  simp only [starCols, List.mem_map, List.mem_filter] at hq
+  obtain ⟨c, ⟨hc, _⟩, rfl⟩ := hq
+  simp [ProjOk, ColOk, colCheck, h, hc]
+
+theorem expandStarTables_projOk (env : Env) (exc : List String) :
+    ∀ (l : Env) (qs : List Proj), (∀ e ∈ l, envCols env e.1 = some e.2) →
+      expandStarTables exc l = .ok qs → ∀ q ∈ qs, ProjOk env q = true := by
+  intro l
+  induction l with
+  | nil => intro qs _ h; simp [expandStarTables] at h; subst h; simp
+  | cons e rest ih =>
+    intro qs hl h
+    obtain ⟨t, cols⟩ := e
+    simp only [expandStarTables] at h
+    split at h
+    · simp at h
+    · split at h
+      · rename_i ps hps
+        simp at h
+        subst h
+        intro q hq
+        simp only [List.mem_append] at hq
+        rcases hq with hq | hq
+        · exact starCols_ok env t exc cols (hl (t, cols) (by simp)) q hq
+        · exact ih ps (fun e he => hl e (by simp [he])) hps q hq
+      · rename_i hr
+        exact absurd h (hr _)
+
+theorem expandStars_ok (env : Env) (hd : hasDup (envNames env) = false) :
+    ∀ (ps qs : List Proj), (∀ p ∈ ps, ProjOk env p = true) → expandStars env ps = .ok qs →
+      ∀ q ∈ qs, ProjOk env q = true := by
+  intro ps
+  induction ps with
+  | nil => intro qs _ h; simp [expandStars] at h; subst h; simp
+  | cons p rest ih =>
+    intro qs hp h
+    have hrest : ∀ q ∈ rest, ProjOk env q = true := fun q hq => hp q (by simp [hq])
+    cases p with
+    | item e a =>
+      simp only [expandStars] at h
+      split at h
+      · rename_i rs hrs
+        simp at h
+        subst h
+        intro q hq
+        simp only [List.mem_cons] at hq
+        rcases hq with rfl | hq
+        · exact hp _ (by simp)
+        · exact ih rs hrest hrs q hq
+      · rename_i hr
+        exact absurd h (hr _)
+    | star t exc =>
+      cases t with
+      | none =>
+        simp only [expandStars] at h
+        split at h
+        · rename_i q1 hq1
+          split at h
+          · rename_i rs hrs
+            simp at h
+            subst h
+            intro q hq
+            simp only [List.mem_append] at hq
+            rcases hq with hq | hq
+            · exact expandStarTables_projOk env exc env q1 (fun e he => envCols_of_mem env e.1 e.2 hd he) hq1 q hq
+            · exact ih rs hrest hrs q hq
+          · rename_i hr
+            exact absurd h (hr _)
+        · rename_i hr
+          exact absurd h (hr _)
+      | some t =>
+        simp only [expandStars] at h
+        split at h
+        · simp at h
+        · rename_i cols hc
+          split at h
+          · rename_i q1 hq1
+            split at h
+            · rename_i rs hrs
+              simp at h
+              subst h
+              intro q hq
+              simp only [List.mem_append] at hq
+              rcases hq with hq | hq
+              · refine expandStarTables_projOk env exc [(t, cols)] q1 ?_ hq1 q hq
+                intro e he
+                simp at he
+                subst he
+                exact hc
+              · exact ih rs hrest hrs q hq
+            · rename_i hr
+              exact absurd h (hr _)
+          · rename_i hr
+            exact absurd h (hr _)
+
+theorem applyStars_ok (env : Env) (hd : hasDup (envNames env) = false) (ps qs : List Proj)
+    (hp : ∀ p ∈ ps, ProjOk env p = true) (h : applyStars env ps = .ok qs) : ∀ q ∈ qs, ProjOk env q = true := by
+  unfold applyStars at h
+  split at h
+  · rename_i q1 hq1
+    split at h
+    · simp at h; subst h; exact hp
+    · simp at h; subst h; exact expandStars_ok env hd ps q1 hp hq1
+  · simp at h; subst h; exact hp
+  · simp at h
+
+theorem qualifyOutputs_ok (env : Env) (cn : Nat → String) :
+    ∀ (ps : List Proj) (i : Nat) (outer : List String), (∀ p ∈ ps, ProjOk env p = true) →
+      ∀ q ∈ qualifyOutputs cn i outer ps, ProjOk env q = true := by
+  intro ps
+  induction ps with
+  | nil => intro _ _ _ q hq; simp [qualifyOutputs] at hq
+  | cons p rest ih =>
+    intro i outer hp q hq
+    cases p with
+    | star t exc =>
+      simp only [qualifyOutputs, List.mem_cons] at hq
+      rcases hq with rfl | hq
+      · rfl
+      · exact ih _ _ (fun x hx => hp x (by simp [hx])) q hq
+    | item e a =>
+      simp only [qualifyOutputs, List.mem_cons] at hq
+      rcases hq with rfl | hq
+      · simpa [ProjOk] using hp (.item e a) (by simp)
+      · exact ih _ _ (fun x hx => hp x (by simp [hx])) q hq
+
+theorem aliasedItem_mem (ps : List Proj) (o : Option Proj) (e : Expr) (a : String)
+    (ho : ∀ p, o = some p → p ∈ ps) (h : aliasedItem o = some (e, a)) : Proj.item e (some a) ∈ ps := by
+  cases o with
+  | none => simp [aliasedItem] at h
+  | some p =>
+    cases p with
+    | star t exc => simp [aliasedItem] at h
+    | item e' a' =>
+      cases a' with
+      | none => simp [aliasedItem] at h
+      | some a' =>
+        simp [aliasedItem] at h
+        obtain ⟨rfl, rfl⟩ := h
+        exact ho _ rfl
+
+theorem projAt_mem (ps : List Proj) (k : Nat) (e : Expr) (a : String) (h : projAt ps k = some (e, a)) :
+    Proj.item e (some a) ∈ ps := by
+  unfold projAt at h
+  split at h
+  · exact aliasedItem_mem ps _ e a (fun p hp => List.mem_of_getLast? hp) h
+  · exact aliasedItem_mem ps _ e a (fun p hp => List.mem_of_getElem? hp) h
+
+theorem groupPos_ok (env : Env) (ps : List Proj) (hp : ∀ p ∈ ps, ProjOk env p = true) (x y : Expr)
+    (hx : ColOk env x = true) (h : groupPos ps x = .ok y) : ColOk env y = true := by
+  cases x with
+  | lit k =>
+    simp only [groupPos] at h
+    split at h
+    · simp at h
+    · split at h
+      · rename_i e a hpa
+        split at h
+        · simp at h; subst h; rfl
+        · simp at h; subst h
+          simpa [ProjOk] using hp _ (projAt_mem ps k e a hpa)
+      · simp at h
+  | col t n => simp [groupPos] at h; subst h; exact hx
+  | bin op l r => simp [groupPos] at h; subst h; exact hx
+  | paren e => simp [groupPos] at h; subst h; exact hx
+  | coalesce args => simp [groupPos] at h; subst h; exact hx
+
+/-- a GROUP BY element produced by `groupPos` is a fixed point of `groupPos` -/
+theorem groupPos_idem (ps : List Proj) (x y : Expr) (h : groupPos ps x = .ok y) : groupPos ps y = .ok y := by
+  cases x with
+  | lit k =>
+    have h0 := h
+    simp only [groupPos] at h
+    split at h
+    · simp at h
+    · split at h
+      · rename_i e a hpa
+        split at h
+        · simp at h; subst h; exact h0
+        · rename_i hl
+          simp at h; subst h
+          cases e with
+          | lit j => simp [isLit] at hl
+          | col t n => rfl
+          | bin op l r => rfl
+          | paren e => rfl
+          | coalesce args => rfl
+      · simp at h
+  | col t n => simp [groupPos] at h; subst h; rfl
+  | bin op l r => simp [groupPos] at h; subst h; rfl
+  | paren e => simp [groupPos] at h; subst h; rfl
+  | coalesce args => simp [groupPos] at h; subst h; rfl
+
+theorem orderPos_notLit (ps : List Proj) (x y : Expr) (h : orderPos ps x = .ok y) : isLit y = false := by
+  cases x with
+  | lit k =>
+    simp only [orderPos] at h
+    split at h
+    · simp at h
+    · split at h
+      · simp at h; subst h; rfl
+      · simp at h
+  | col t n => simp [orderPos] at h; subst h; rfl
+  | bin op l r => simp [orderPos] at h; subst h; rfl
+  | paren e => simp [orderPos] at h; subst h; rfl
+  | coalesce args => simp [orderPos] at h; subst h; rfl
+
+theorem orderPos_ok (env : Env) (ps : List Proj) (x y : Expr)
+    (hx : ColOk env x = true) (h : orderPos ps x = .ok y) : ColOk env y = true := by
+  cases x with
+  | lit k =>
+    simp only [orderPos] at h
+    split at h
+    · simp at h
+    · split at h
+      · simp at h; subst h; rfl
+      · simp at h
+  | col t n => simp [orderPos] at h; subst h; exact hx
+  | bin op l r => simp [orderPos] at h; subst h; exact hx
+  | paren e => simp [orderPos] at h; subst h; exact hx
+  | coalesce args => simp [orderPos] at h; subst h; exact hx
+
+theorem orderPos_fixed (ps : List Proj) (x : Expr) (h : isLit x = false) : orderPos ps x = .ok x := by
+  cases x with
+  | lit k => simp [isLit] at h
+  | col t n => rfl
+  | bin op l r => rfl
+  | paren e => rfl
+  | coalesce args => rfl
+
+theorem orderByAlias_notLit (ps : List Proj) (x : Expr) (h : isLit x = false) : isLit (orderByAlias ps x) = false := by
+  unfold orderByAlias
+  split
+  · rfl
+  · exact h
+
+theorem orderByAlias_ok (env : Env) (ps : List Proj) (x : Expr) (h : ColOk env x = true) :
+    ColOk env (orderByAlias ps x) = true := by
+  unfold orderByAlias
+  split
+  · rfl
+  · exact h
+
+/-- no projection of a validated scope is a bare name, so an alias reference is never rewritten again -/
+theorem lastAliasOf_bare (names : List String) (a : String) :
+    ∀ ps : List Proj, (∀ p ∈ ps, projVisible names p = true) → lastAliasOf (.col none a) ps = none := by
+  intro ps
+  induction ps with
+  | nil => intro _; rfl
+  | cons p rest ih =>
+    intro hv
+    have hr := ih (fun q hq => hv q (by simp [hq]))
+    cases p with
+    | star t exc => simpa [lastAliasOf] using hr
+    | item e al =>
+      cases al with
+      | none => simpa [lastAliasOf] using hr
+      | some al =>
+        have he : visible names [] e = true := by simpa [projVisible] using hv (.item e (some al)) (by simp)
+        have hne : (e == Expr.col none a) = false := by
+          cases hq : (e == Expr.col none a) with
+          | false => rfl
+          | true =>
+            have : e = Expr.col none a := by simpa using hq
+            subst this
+            simp [visible] at he
+        simp [lastAliasOf, hr, hne]
+
+theorem orderByAlias_idem (names : List String) (ps : List Proj) (hv : ∀ p ∈ ps, projVisible names p = true)
+    (x : Expr) : orderByAlias ps (orderByAlias ps x) = orderByAlias ps x := by
+  unfold orderByAlias
+  cases h : lastAliasOf x ps with
+  | none => simp [h]
+  | some a => simp [lastAliasOf_bare names a ps hv]
+
+/-! ### what the first pass establishes -/
+
+theorem hasStar_qualifyOutputs (cn : Nat → String) :
+    ∀ (ps : List Proj) (i : Nat) (outer : List String), hasStar (qualifyOutputs cn i outer ps) = hasStar ps := by
+  intro ps
+  induction ps with
+  | nil => intro _ _; rfl
+  | cons p rest ih =>
+    intro i outer
+    cases p with
+    | star t exc => rfl
+    | item e a => simp [qualifyOutputs, hasStar, ih]
+
+theorem qcolProj_ok (env : Env) (hd : hasDup (envNames env) = false) (p q : Proj)
+    (h : qcolProj env p = .ok q) : ProjOk env q = true := by
+  cases p with
+  | star t exc => simp [qcolProj] at h; subst h; rfl
+  | item e a =>
+    simp only [qcolProj] at h
+    obtain ⟨e', he, h⟩ := bind_ok h
+    simp [pure, Except.pure] at h
+    subst h
+    simpa [ProjOk] using qcol_ColOk env [] hd e e' he
+
+structure ScopeInv (env : Env) (s' : Scope) : Prop where
+  projs : ∀ p ∈ s'.projs, ProjOk env p = true
+  whr : ∀ e, s'.whr = some e → ColOk env e = true
+  group : ∀ e ∈ s'.group, ColOk env e = true
+  having : ∀ e, s'.having = some e → ColOk env e = true
+  order : ∀ e ∈ s'.order, ColOk env e = true
+  joins : ∀ j ∈ s'.joins, ∀ e, j.on = some e → ColOk env e = true
+  groupFix : ∀ e ∈ s'.group, groupPos s'.projs e = .ok e
+  orderNotLit : ∀ e ∈ s'.order, isLit e = false
+  orderForm : s'.group = [] ∨ ∀ e ∈ s'.order, ∃ x, e = orderByAlias s'.projs x
+  aliased : hasStar s'.projs = false → AllAliased s'.projs
+
+theorem qcolJoin_ok (env : Env) (hd : hasDup (envNames env) = false) (j0 j : Join)
+    (h : qcolJoin env false (j0, false) = .ok j) :
+    (∀ e, j.on = some e → ColOk env e = true) ∧ j.natural = j0.natural ∧ j.usingCols = j0.usingCols := by
+  unfold qcolJoin at h
+  split at h
+  · rename_i hn
+    simp at h; subst h
+    simp only at hn
+    exact ⟨by intro e he; rw [hn] at he; simp at he, rfl, rfl⟩
+  · rename_i e hn
+    simp only [Bool.false_and, Bool.false_eq_true, if_false] at h
+    split at h
+    · simp at h
+    · obtain ⟨e', he', h⟩ := bind_ok h
+      simp [pure, Except.pure] at h
+      subst h
+      refine ⟨?_, rfl, rfl⟩
+      intro x hx
+      simp at hx
+      subst hx
+      exact qcol_ColOk env [] hd e e' he'
+
+theorem mapE_qcolJoin_same (env : Env) (hd : hasDup (envNames env) = false) :
+    ∀ (js0 joinsB : List Join), mapE (qcolJoin env false) (js0.map (fun j => (j, false))) = .ok joinsB →
+      joinsB.length = js0.length ∧ hasMerge joinsB = hasMerge js0 := by
+  intro js0
+  induction js0 with
+  | nil => intro joinsB h; simp [mapE] at h; subst h; exact ⟨rfl, rfl⟩
+  | cons j0 rest ih =>
+    intro joinsB h
+    simp only [List.map, mapE] at h
+    obtain ⟨y, hy, h⟩ := bind_ok h
+    obtain ⟨ys, hys, h⟩ := bind_ok h
+    simp [pure, Except.pure] at h
+    subst h
+    obtain ⟨_, hn, hu⟩ := qcolJoin_ok env hd j0 y hy
+    obtain ⟨h1, h2⟩ := ih ys hys
+    refine ⟨by simp [h1], ?_⟩
+    simp only [hasMerge, List.any_cons] at h2 ⊢
+    rw [h2, hn, hu]
+
+theorem buildCore_inv (g : Gen) (env : Env) (srcs' : List Src) (js0 : List Join) (skip : List String) (s s' : Scope)
+    (hd : hasDup (envNames env) = false)
+    (h : buildCore g env srcs' [] (js0.map (fun j => (j, false))) false skip s = .ok s') :
+    ScopeInv env s' ∧ s'.joins.length = js0.length ∧ hasMerge s'.joins = hasMerge js0 := by
+  unfold buildCore at h
+  obtain ⟨projsB, hB1, h⟩ := bind_ok h
+  obtain ⟨whrB, hB2, h⟩ := bind_ok h
+  obtain ⟨groupB, hB3, h⟩ := bind_ok h
+  obtain ⟨havingB, hB4, h⟩ := bind_ok h
+  obtain ⟨orderB, hB5, h⟩ := bind_ok h
+  obtain ⟨joinsB, hB6, h⟩ := bind_ok h
+  obtain ⟨projsD, hD, h⟩ := bind_ok h
+  split at h
+  · simp at h
+  · obtain ⟨groupF, hF1, h⟩ := bind_ok h
+    obtain ⟨orderF, hF2, h⟩ := bind_ok h
+    simp only [pure, Except.pure, Except.ok.injEq] at h
+    have pB : ∀ p ∈ projsB, ProjOk env p = true :=
+      mapE_forall _ _ _ _ hB1 (fun x y _ hxy => qcolProj_ok env hd x y hxy)
+    have hpc := expandProjs_ok env hd projsB [] 0 (by intro x hx; simp at hx) pB
+    have wB : ∀ e, whrB = some e → ColOk env e = true :=
+      optE_forall _ _ _ _ hB2 (fun x y _ hxy => qcol_ColOk env [] hd x y hxy)
+    have gB : ∀ e ∈ groupB, ColOk env e = true :=
+      mapE_forall _ _ _ _ hB3 (fun x y _ hxy => qcol_ColOk env [] hd x y hxy)
+    have hvB : ∀ e, havingB = some e → ColOk env e = true :=
+      optE_forall _ _ _ _ hB4 (fun x y _ hxy => qcolHaving_ColOk env x y hxy)
+    have oB : ∀ e ∈ orderB, ColOk env e = true :=
+      mapE_forall _ _ _ _ hB5 (fun x y _ hxy => qcol_ColOk env _ hd x y hxy)
+    have jB : ∀ j ∈ joinsB, ∀ e, j.on = some e → ColOk env e = true := by
+      refine mapE_forall _ (fun j => ∀ e, j.on = some e → ColOk env e = true) _ _ hB6 ?_
+      intro x y hx hxy
+      obtain ⟨j0, _, rfl⟩ := List.mem_map.mp hx
+      exact (qcolJoin_ok env hd j0 y hxy).1
+    have jLen := mapE_qcolJoin_same env hd js0 joinsB hB6
+    have pD : ∀ q ∈ projsD, ProjOk env q = true := by
+      have : applyStars env (expandProjs env [] 0 projsB).1 = .ok projsD := by simpa [applyStarsU] using hD
+      exact applyStars_ok env hd _ projsD hpc.1 this
+    have pE := qualifyOutputs_ok env g.colName projsD 0 s.outer pD
+    have gC : ∀ e ∈ groupB.map (expand env (expandProjs env [] 0 projsB).2 .group .root), ColOk env e = true := by
+      intro e he
+      obtain ⟨x, hx, rfl⟩ := List.mem_map.mp he
+      exact expand_ColOk env _ _ hd hpc.2 x _ (gB x hx)
+    have gF : ∀ e ∈ groupF, ColOk env e = true ∧ groupPos (qualifyOutputs g.colName 0 s.outer projsD) e = .ok e := by
+      refine mapE_forall _ (fun y => ColOk env y = true ∧ groupPos (qualifyOutputs g.colName 0 s.outer projsD) y = .ok y) _ _ hF1 ?_
+      intro x y hx hxy
+      exact ⟨groupPos_ok env _ pE x y (gC x hx) hxy, groupPos_idem _ x y hxy⟩
+    have oF : ∀ e ∈ orderF, ColOk env e = true ∧ isLit e = false := by
+      refine mapE_forall _ (fun y => ColOk env y = true ∧ isLit y = false) _ _ hF2 ?_
+      intro x y hx hxy
+      exact ⟨orderPos_ok env _ x y (oB x hx) hxy, orderPos_notLit _ x y hxy⟩
+    subst h
+    refine ⟨⟨pE, ?_, fun e he => (gF e he).1, ?_, ?_, jB, fun e he => (gF e he).2, ?_, ?_, ?_⟩, jLen.1, jLen.2⟩
+    · intro e he
+      cases hw : whrB with
+      | none => simp [hw] at he
+      | some w =>
+        simp [hw] at he
+        subst he
+        exact expand_ColOk env _ _ hd hpc.2 w _ (wB w hw)
+    · intro e he
+      cases hw : havingB with
+      | none => simp [hw] at he
+      | some w =>
+        simp [hw] at he
+        subst he
+        exact expand_ColOk env _ _ hd hpc.2 w _ (hvB w hw)
+    · intro e he
+      simp only at he
+      split at he
+      · exact (oF e he).1
+      · obtain ⟨x, hx, rfl⟩ := List.mem_map.mp he
+        exact orderByAlias_ok env _ x (oF x hx).1
+    · intro e he
+      simp only at he
+      split at he
+      · exact (oF e he).2
+      · obtain ⟨x, hx, rfl⟩ := List.mem_map.mp he
+        exact orderByAlias_notLit _ x (oF x hx).2
+    · simp only
+      cases hg : groupF.isEmpty with
+      | true => left; simpa using hg
+      | false =>
+        right
+        intro e he
+        simp [hg] at he
+        obtain ⟨x, _, rfl⟩ := he
+        exact ⟨x, rfl⟩
+    · intro hs
+      simp only at hs ⊢
+      rw [hasStar_qualifyOutputs] at hs
+      exact qualifyOutputs_allAliased g.colName projsD 0 s.outer hs
+
+/-- without USING / NATURAL joins step U does nothing -/
+theorem buildScope_noMerge (g : Gen) (env : Env) (srcs' : List Src) (s : Scope) (hm : hasMerge s.joins = false) :
+    buildScope g env srcs' s =
+      if (s.joins.length + 1 != srcs'.length && !s.joins.isEmpty) = true then .error .internal
+      else buildCore g env srcs' [] (s.joins.map (fun j => (j, false))) false (namedSelects s.projs) s := by
+  unfold buildScope
+  split
+  · rfl
+  · simp [expandUsing, hm, bind, Except.bind]
+
+/-! ### the second pass -/
+
+theorem mkEnv_fixed (g : Gen) (σ : Schema) (outs : List (List String)) :
+    ∀ (srcs srcs' : List Src) (env0 : List (Bool × String × List String)),
+      mkEnv g σ outs srcs = some (srcs', env0) → mkEnv g σ outs srcs' = some (srcs', env0) := by
+  intro srcs
+  induction srcs with
+  | nil => intro srcs' env0 h; simp [mkEnv] at h; obtain ⟨rfl, rfl⟩ := h; rfl
+  | cons s rest ih =>
+    intro srcs' env0 h
+    simp only [mkEnv] at h
+    split at h
+    · rename_i a cols rs env hn hc hr
+      simp at h
+      obtain ⟨rfl, rfl⟩ := h
+      have h1 : srcName g { s with alias := some a } = some a := rfl
+      have h2 : srcCols σ outs { s with alias := some a } = some cols := by simpa [srcCols] using hc
+      have h3 : isDerived { s with alias := some a } = isDerived s := rfl
+      simp only [mkEnv, h1, h2, ih rs env hr, h3]
+    · simp at h
+
+theorem visible_noBare (names : List String) : ∀ e : Expr, visible names [] e = true → noBare e = true := by
+  intro e
+  induction e with
+  | col t n =>
+    intro h
+    cases t with
+    | none => simp [visible] at h
+    | some t => rfl
+  | lit k => intro _; rfl
+  | bin op l r ihl ihr =>
+    intro h
+    simp only [visible, Bool.and_eq_true] at h
+    simp [noBare, ihl h.1, ihr h.2]
+  | paren e ih =>
+    intro h
+    simp only [visible] at h
+    simp [noBare, ih h]
+  | coalesce args => intro _; rfl
+
+theorem buildCore_fixed (g : Gen) (env : Env) (names : List String) (srcs' : List Src) (s' : Scope)
+    (hinv : ScopeInv env s') (hv : validate names s' = true) (hstar : hasStar s'.projs = false)
+    (hh : ∀ e, s'.having = some e → visible names [] e = true) (ho : s'.outer = []) (hs : s'.srcs = srcs') :
+    buildCore g env srcs' [] (s'.joins.map (fun j => (j, false))) false (namedSelects s'.projs) s' = .ok s' := by
+  obtain ⟨outer, srcs, joins, projs, whr, group, having, order⟩ := s'
+  simp only at ho hs hstar hh
+  subst ho hs
+  obtain ⟨iP, iW, iG, iH, iO, iJ, iGF, iON, iOF, iA⟩ := hinv
+  simp only at iP iW iG iH iO iJ iGF iON iOF iA
+  have hAll := iA hstar
+  simp only [validate, Bool.and_eq_true, List.all_eq_true] at hv
+  obtain ⟨⟨⟨⟨⟨v1, v2⟩, v3⟩, _⟩, v5⟩, v6⟩ := hv
+  have hB1 : mapE (qcolProj env) projs = .ok projs := by
+    apply mapE_fixed
+    intro p hp
+    cases p with
+    | star t exc => rfl
+    | item e a =>
+      have hc : ColOk env e = true := by simpa [ProjOk] using iP _ hp
+      have hvis : visible names [] e = true := by simpa [projVisible] using v1 _ hp
+      simp [qcolProj, qcol_fixed env names [] e hc hvis, bind, Except.bind, pure, Except.pure]
+  have hB2 : optE (qcol env []) whr = .ok whr := by
+    apply optE_fixed
+    intro x hx
+    subst hx
+    exact qcol_fixed env names [] x (iW x rfl) (by simpa using v2)
+  have hB3 : mapE (qcol env []) group = .ok group :=
+    mapE_fixed _ _ (fun x hx => qcol_fixed env names [] x (iG x hx) (v3 x hx))
+  have hB4 : optE (qcolHaving env) having = .ok having :=
+    optE_fixed _ _ (fun x hx => qcolHaving_fixed env x (iH x hx))
+  have hB5 : mapE (qcol env (namedSelects projs)) order = .ok order :=
+    mapE_fixed _ _ (fun x hx => qcol_fixed env names _ x (iO x hx) (v5 x hx))
+  have hB6 : mapE (qcolJoin env false) (joins.map (fun j => (j, false))) = .ok joins := by
+    have : ∀ l : List Join, (∀ j ∈ l, j ∈ joins) → mapE (qcolJoin env false) (l.map (fun j => (j, false))) = .ok l := by
+      intro l
+      induction l with
+      | nil => intro _; rfl
+      | cons j rest ih =>
+        intro hl
+        have hj := hl j (by simp)
+        have hfix : qcolJoin env false (j, false) = .ok j := by
+          unfold qcolJoin
+          cases hon : j.on with
+          | none => simp [hon]
+          | some e =>
+            have hvis : visible names [] e = true := by simpa [hon] using v6 j hj
+            have hnb := visible_noBare names e hvis
+            simp only [hon, Bool.false_and, Bool.false_eq_true, if_false, hnb, Bool.not_true]
+            rw [qcol_fixed env names [] e (iJ j hj e hon) hvis]
+            simp only [bind, Except.bind, pure, Except.pure]
+            congr 1
+            cases j
+            simp_all
+        simp [mapE, hfix, ih (fun x hx => hl x (by simp [hx])), bind, Except.bind, pure, Except.pure]
+    exact this joins (fun j hj => hj)
+  have hC1 : ∀ m i, (expandProjs env m i projs).1 = projs := fun m i => expandProjs_fixed env names projs m i v1 hAll
+  have hC2 : ∀ m, whr.map (expand env m .plain .root) = whr := by
+    intro m
+    cases whr with
+    | none => rfl
+    | some w => simp [expand_fixed env m .plain names w .root (by simpa using v2)]
+  have hC3 : ∀ m, group.map (expand env m .group .root) = group := by
+    intro m
+    have : ∀ l : List Expr, (∀ x ∈ l, visible names [] x = true) → l.map (expand env m .group .root) = l := by
+      intro l
+      induction l with
+      | nil => intro _; rfl
+      | cons x xs ih =>
+        intro hl
+        simp [expand_fixed env m .group names x .root (hl x (by simp)), ih (fun y hy => hl y (by simp [hy]))]
+    exact this group v3
+  have hC4 : ∀ m, having.map (expand env m .having .root) = having := by
+    intro m
+    cases having with
+    | none => rfl
+    | some w => simp [expand_fixed env m .having names w .root (hh w rfl)]
+  have hD : applyStarsU env [] projs = .ok projs := by
+    simp [applyStarsU, applyStars, expandStars_fixed env projs hAll]
+  have hE : qualifyOutputs g.colName 0 [] projs = projs := qualifyOutputs_fixed g.colName projs 0 hAll
+  have hF1 : mapE (groupPos projs) group = .ok group := mapE_fixed _ _ iGF
+  have hF2 : mapE (orderPos projs) order = .ok order :=
+    mapE_fixed _ _ (fun x hx => orderPos_fixed projs x (iON x hx))
+  have hF3 : (if group.isEmpty then order else order.map (orderByAlias projs)) = order := by
+    rcases iOF with hg | hf
+    · simp [hg]
+    · split
+      · rfl
+      · have : ∀ l : List Expr, (∀ e ∈ l, ∃ x, e = orderByAlias projs x) → l.map (orderByAlias projs) = l := by
+          intro l
+          induction l with
+          | nil => intro _; rfl
+          | cons y ys ih =>
+            intro hl
+            obtain ⟨x, rfl⟩ := hl y (by simp)
+            simp [orderByAlias_idem names projs v1 x, ih (fun z hz => hl z (by simp [hz]))]
+        exact this order hf
+  have hF3' : ¬ group = [] → order.map (orderByAlias projs) = order := by
+    intro hne
+    have hie : group.isEmpty = false := by
+      cases group with
+      | nil => exact absurd rfl hne
+      | cons x xs => rfl
+    simpa [hie] using hF3
+  simp [buildCore, hB1, hB2, hB3, hB4, hB5, hB6, hC1, hC2, hC3, hC4, hD, hstar, hE, hF1, hF2,
+    bind, Except.bind, pure, Except.pure]
+  exact hF3'
+
+theorem visible_of_having (names : List String) :
+    ∀ e : Expr, visibleHaving names e = true → noBare e = true → visible names [] e = true := by
+  intro e
+  induction e with
+  | col t n =>
+    intro h hb
+    cases t with
+    | none => simp [noBare] at hb
+    | some t => simpa [visible, visibleHaving] using h
+  | lit k => intro _ _; rfl
+  | bin op l r ihl ihr =>
+    intro h hb
+    simp only [visibleHaving, noBare, Bool.and_eq_true] at h hb
+    simp [visible, ihl h.1 hb.1, ihr h.2 hb.2]
+  | paren e ih =>
+    intro h hb
+    simp only [visibleHaving, noBare] at h hb
+    simp [visible, ih h hb]
+  | coalesce args => intro h _; simpa [visible, visibleHaving] using h
+
+/-- the premise of pipeline idempotence, stated on the RESULT of the first pass: its stars were expanded (not the
+    "source with unknown / duplicate columns" abandonment) and no bare name is left under HAVING (the complement of
+    known findings C10-having-bare-name-unvalidated / -not-idempotent) -/
+def Resolved (s' : Scope) : Prop :=
+  hasStar s'.projs = false ∧ ∀ e, s'.having = some e → noBare e = true
+
+theorem qualifyScope_fixed (g : Gen) (σ : Schema) (outs : List (List String)) (s s' : Scope)
+    (h : qualifyScope g σ outs s = .ok s') (hm : hasMerge s.joins = false) (hr : Resolved s') :
+    qualifyScope g σ outs s' = .ok s' ∧ hasMerge s'.joins = false := by
+  obtain ⟨srcs', env0, hme, hdup, hb, hv⟩ := qualifyScope_ok g σ outs s s' h
+  obtain ⟨hs, ho⟩ := buildScope_shape g _ srcs' s s' hb
+  rw [buildScope_noMerge g _ srcs' s hm] at hb
+  split at hb
+  · simp at hb
+  · rename_i hal
+    obtain ⟨hinv, hlen, hmerge⟩ := buildCore_inv g _ srcs' s.joins _ s s' hdup hb
+    have hh' : ∀ e, s'.having = some e → visible (envNames (refOrder env0)) [] e = true := by
+      intro e he
+      have hv' := hv
+      simp only [validate, Bool.and_eq_true] at hv'
+      have v4 := hv'.1.1.2
+      rw [he] at v4
+      exact visible_of_having _ e v4 (hr.2 e he)
+    have hfix := buildCore_fixed g (refOrder env0) (envNames (refOrder env0)) srcs' s' hinv hv hr.1 hh' ho hs
+    have hm2 : hasMerge s'.joins = false := by rw [hmerge]; exact hm
+    have hme' : mkEnv g σ outs s'.srcs = some (srcs', env0) := by
+      rw [hs]; exact mkEnv_fixed g σ outs s.srcs srcs' env0 hme
+    have hal' : (s'.joins.length + 1 != srcs'.length && !s'.joins.isEmpty) = false := by
+      have : s'.joins.isEmpty = s.joins.isEmpty := by
+        cases hj : s'.joins <;> cases hj0 : s.joins <;> simp_all
+      rw [hlen, this]
+      simpa using hal
+    refine ⟨?_, hm2⟩
+    have hb2 : buildScope g (refOrder env0) srcs' s' = .ok s' := by
+      rw [buildScope_noMerge g _ srcs' s' hm2, hal']
+      simpa using hfix
+    simp [qualifyScope, hme', hdup, hb2, check, hv]
+
+theorem qualifyFrom_fixed (g : Gen) (σ : Schema) :
+    ∀ (q : List Scope) (outs : List (List String)) (q' : List Scope),
+      qualifyFrom g σ outs q = .ok q' → (∀ s ∈ q, hasMerge s.joins = false) → (∀ s' ∈ q', Resolved s') →
+      qualifyFrom g σ outs q' = .ok q' := by
+  intro q
+  induction q with
+  | nil => intro outs q' h _ _; simp [qualifyFrom] at h; subst h; rfl
+  | cons s rest ih =>
+    intro outs q' h hm hr
+    unfold qualifyFrom at h
+    obtain ⟨s', hs', h⟩ := bind_ok h
+    obtain ⟨rest', hrest, h⟩ := bind_ok h
+    simp [pure, Except.pure] at h
+    subst h
+    have h1 := (qualifyScope_fixed g σ outs s s' hs' (hm s (by simp)) (hr s' (by simp))).1
+    have h2 := ih _ rest' hrest (fun x hx => hm x (by simp [hx])) (fun x hx => hr x (by simp [hx]))
+    simp [qualifyFrom, h1, h2, bind, Except.bind, pure, Except.pure]
+
+/-! ### stars over USING joins: the merge-membership test -/
+
+/-- a table that takes no part in the merge of any of its columns, none of which has been coalesced by an earlier
+    star of the same select, expands to exactly its own columns -/
+theorem starColsU_outside (ct : ColTables) (t : String) (exc : List String) :
+    ∀ (cols coal : List String),
+      (∀ c ∈ cols, ∀ e, ct.find? (fun e => e.1 == c) = some e → e.2.contains t = false) →
+      (∀ c ∈ cols, coal.contains c = false) →
+      starColsU ct t exc coal cols = (starCols t exc cols, coal) := by
+  intro cols
+  induction cols with
+  | nil => intro coal _ _; rfl
+  | cons c cs ih =>
+    intro coal hout hco
+    have ih' := ih coal (fun x hx => hout x (by simp [hx])) (fun x hx => hco x (by simp [hx]))
+    have hc := hco c (by simp)
+    have hcm : ¬ c ∈ coal := by simpa using hc
+    unfold starColsU
+    by_cases hx : c ∈ exc
+    · simp [hx, ih', starCols, List.filter_cons]
+    · simp only [List.contains_eq_mem, hx, hcm, decide_false, Bool.or_self, Bool.false_eq_true, if_false]
+      cases hf : ct.find? (fun e => e.1 == c) with
+      | none => simp [ih', starCols, List.filter_cons, hx]
+      | some e =>
+        have ht : ¬ t ∈ e.2 := by simpa using hout c (by simp) e hf
+        simp [ht, ih', starCols, List.filter_cons, hx]
+
+/-! ## output names through the whole pipeline -/
+
+def nameOpt (c : String) : Option String := if c == "" then none else some c
+
+/-- SPEC: the optional output names of a projection list, stars replaced by their sources' columns -/
+def expandSpec (env : Env) : List Proj → List (Option String)
+  | [] => []
+  | .star none exc :: ps => (env.flatMap (fun e => (e.2.filter (fun c => !exc.contains c)).map nameOpt)) ++ expandSpec env ps
+  | .star (some t) exc :: ps => (((colsOf env t).filter (fun c => !exc.contains c)).map nameOpt) ++ expandSpec env ps
+  | .item _ (some a) :: ps => some a :: expandSpec env ps
+  | .item e none :: ps => nameOpt (exprName e) :: expandSpec env ps
+
+/-- SPEC: anonymous positions are called `_col_i` -/
+def nameAll (cn : Nat → String) : Nat → List (Option String) → List String
+  | _, [] => []
+  | i, some n :: l => n :: nameAll cn (i + 1) l
+  | i, none :: l => cn i :: nameAll cn (i + 1) l
+
+/-- SPEC: an outer column list (CTE / derived-table alias columns) overrides position by position -/
+def overlay : List String → List String → List String
+  | _, [] => []
+  | [], ns => ns
+  | o :: os, _ :: ns => o :: overlay os ns
+
+def optNames : List Proj → List (Option String)
+  | [] => []
+  | .star _ _ :: ps => some "*" :: optNames ps
+  | .item _ (some a) :: ps => some a :: optNames ps
+  | .item e none :: ps => nameOpt (exprName e) :: optNames ps
+
+def headBare : Expr → Bool
+  | .col none _ => true
+  | .paren e => headBare e
+  | _ => false
+
+/-- the name-giving head of an unaliased projection, if it is a bare name, resolves to a source -/
+def headResolves (env : Env) : Expr → Bool
+  | .col none n => (unique env n).isSome
+  | .paren e => headResolves env e
+  | _ => true
+
+def NamesStable (env : Env) (ps : List Proj) : Prop := ∀ e, Proj.item e none ∈ ps → headResolves env e = true
+
+@[simp] theorem overlay_nil (l : List String) : overlay [] l = l := by cases l <;> rfl
+
+theorem qualifyOutputs_names (cn : Nat → String) :
+    ∀ (ps : List Proj) (i : Nat) (outer : List String), hasStar ps = false →
+      outNames (qualifyOutputs cn i outer ps) = overlay outer (nameAll cn i (optNames ps)) := by
+  intro ps
+  induction ps with
+  | nil => intro i outer _; cases outer <;> rfl
+  | cons p rest ih =>
+    intro i outer hs
+    cases p with
+    | star t exc => simp [hasStar] at hs
+    | item e a =>
+      simp only [hasStar] at hs
+      have ih' := ih (i + 1) outer.tail hs
+      cases a with
+      | some a =>
+        cases outer with
+        | nil => simpa [qualifyOutputs, outNames, optNames, nameAll, overlay] using ih'
+        | cons o os => simpa [qualifyOutputs, outNames, optNames, nameAll, overlay] using ih'
+      | none =>
+        by_cases hn : exprName e = ""
+        · cases outer with
+          | nil => simpa [qualifyOutputs, outNames, optNames, nameAll, overlay, outAlias, nameOpt, hn] using ih'
+          | cons o os => simpa [qualifyOutputs, outNames, optNames, nameAll, overlay, outAlias, nameOpt, hn] using ih'
+        · cases outer with
+          | nil => simpa [qualifyOutputs, outNames, optNames, nameAll, overlay, outAlias, nameOpt, hn] using ih'
+          | cons o os => simpa [qualifyOutputs, outNames, optNames, nameAll, overlay, outAlias, nameOpt, hn] using ih'
+
+theorem expandSpec_noStar (env : Env) : ∀ ps : List Proj, hasStar ps = false → expandSpec env ps = optNames ps := by
+  intro ps
+  induction ps with
+  | nil => intro _; rfl
+  | cons p rest ih =>
+    intro hs
+    cases p with
+    | star t exc => simp [hasStar] at hs
+    | item e a =>
+      simp only [hasStar] at hs
+      cases a <;> simp [expandSpec, optNames, ih hs]
+
+theorem optNames_append (a b : List Proj) : optNames (a ++ b) = optNames a ++ optNames b := by
+  induction a with
+  | nil => rfl
+  | cons p rest ih =>
+    cases p with
+    | star t exc => simp [optNames, ih]
+    | item e al => cases al <;> simp [optNames, ih]
+
+theorem optNames_starCols (t : String) (exc cols : List String) :
+    optNames (starCols t exc cols) = (cols.filter (fun c => !exc.contains c)).map nameOpt := by
+  unfold starCols
+  induction cols.filter (fun c => !exc.contains c) with
+  | nil => rfl
+  | cons c cs ih => simp [optNames, exprName, ih]
+
+theorem expandStarTables_names (exc : List String) :
+    ∀ (l : Env) (qs : List Proj), expandStarTables exc l = .ok qs →
+      optNames qs = l.flatMap (fun e => (e.2.filter (fun c => !exc.contains c)).map nameOpt) := by
+  intro l
+  induction l with
+  | nil => intro qs h; simp [expandStarTables] at h; subst h; rfl
+  | cons e rest ih =>
+    intro qs h
+    obtain ⟨t, cols⟩ := e
+    simp only [expandStarTables] at h
+    split at h
+    · simp at h
+    · split at h
+      · rename_i ps hps
+        simp at h
+        subst h
+        simp [optNames_append, optNames_starCols, ih ps hps]
+      · rename_i hr
+        exact absurd h (hr _)
+
+theorem expandStars_names (env : Env) :
+    ∀ (ps qs : List Proj), expandStars env ps = .ok qs → optNames qs = expandSpec env ps := by
+  intro ps
+  induction ps with
+  | nil => intro qs h; simp [expandStars] at h; subst h; rfl
+  | cons p rest ih =>
+    intro qs h
+    cases p with
+    | item e a =>
+      simp only [expandStars] at h
+      split at h
+      · rename_i rs hrs
+        simp at h
+        subst h
+        cases a <;> simp [optNames, expandSpec, ih rs hrs]
+      · rename_i hr
+        exact absurd h (hr _)
+    | star t exc =>
+      cases t with
+      | none =>
+        simp only [expandStars] at h
+        split at h
+        · rename_i q1 hq1
+          split at h
+          · rename_i rs hrs
+            simp at h
+            subst h
+            simp [optNames_append, expandSpec, expandStarTables_names exc env q1 hq1, ih rs hrs]
+          · rename_i hr
+            exact absurd h (hr _)
+        · rename_i hr
+          exact absurd h (hr _)
+      | some t =>
+        simp only [expandStars] at h
+        split at h
+        · simp at h
+        · rename_i cols hc
+          split at h
+          · rename_i q1 hq1
+            split at h
+            · rename_i rs hrs
+              simp at h
+              subst h
+              have := expandStarTables_names exc [(t, cols)] q1 hq1
+              simp [optNames_append, expandSpec, this, ih rs hrs, colsOf, hc]
+            · rename_i hr
+              exact absurd h (hr _)
+          · rename_i hr
+            exact absurd h (hr _)
+
+theorem hasStar_of_abandon (env : Env) : ∀ ps : List Proj, expandStars env ps = .abandon → hasStar ps = true := by
+  intro ps
+  induction ps with
+  | nil => intro h; simp [expandStars] at h
+  | cons p rest ih =>
+    intro h
+    cases p with
+    | star t exc => rfl
+    | item e a =>
+      simp only [expandStars] at h
+      split at h
+      · simp at h
+      · simpa [hasStar] using ih h
+
+theorem applyStars_names (env : Env) (ps qs : List Proj) (h : applyStars env ps = .ok qs) (hs : hasStar qs = false) :
+    optNames qs = expandSpec env ps := by
+  unfold applyStars at h
+  split at h
+  · rename_i q1 hq1
+    split at h
+    · have hq : ps = qs := by simpa using h
+      rw [← hq] at hs ⊢
+      exact (expandSpec_noStar env ps hs).symm
+    · have hq : q1 = qs := by simpa using h
+      rw [← hq]
+      exact expandStars_names env ps q1 hq1
+  · rename_i ha
+    have hq : ps = qs := by simpa using h
+    rw [← hq] at hs
+    rw [hasStar_of_abandon env ps ha] at hs
+    simp at hs
+  · simp at h
+
+theorem qcol_name (env : Env) :
+    ∀ e e' : Expr, qcol env [] e = .ok e' → exprName e' = exprName e ∧ (headResolves env e = true → headBare e' = false) := by
+  intro e
+  induction e with
+  | col t n =>
+    intro e' h
+    cases t with
+    | some t =>
+      rw [qcol_some] at h
+      split at h
+      · simp at h; subst h; exact ⟨rfl, fun _ => rfl⟩
+      · simp at h
+    | none =>
+      simp only [qcol, List.contains_nil, Bool.false_eq_true, if_false] at h
+      split at h
+      · simp at h; subst h; exact ⟨rfl, fun _ => rfl⟩
+      · rename_i hu
+        simp at h; subst h
+        refine ⟨rfl, ?_⟩
+        intro hr
+        simp [headResolves, hu] at hr
+  | lit k => intro e' h; simp [qcol] at h; subst h; exact ⟨rfl, fun _ => rfl⟩
+  | bin op l r _ _ =>
+    intro e' h
+    simp only [qcol] at h
+    obtain ⟨l', _, h⟩ := bind_ok h
+    obtain ⟨r', _, h⟩ := bind_ok h
+    simp [pure, Except.pure] at h
+    subst h
+    exact ⟨rfl, fun _ => rfl⟩
+  | paren e ih =>
+    intro e' h
+    simp only [qcol] at h
+    obtain ⟨x, hx, h⟩ := bind_ok h
+    simp [pure, Except.pure] at h
+    subst h
+    obtain ⟨h1, h2⟩ := ih x hx
+    exact ⟨by simpa [exprName] using h1, by simpa [headResolves, headBare] using h2⟩
+  | coalesce args =>
+    intro e' h
+    simp only [qcol] at h
+    split at h
+    · simp at h; subst h; exact ⟨rfl, fun _ => rfl⟩
+    · simp at h
+
+theorem expand_name (env : Env) (m : AMap) (cl : Clause) :
+    ∀ (e : Expr) (ctx : Ctx), headBare e = false → exprName (expand env m cl ctx e) = exprName e := by
+  intro e
+  induction e with
+  | col t n =>
+    intro ctx h
+    cases t with
+    | some t => rfl
+    | none => simp [headBare] at h
+  | lit k => intro _ _; rfl
+  | bin op l r _ _ => intro _ _; rfl
+  | paren e ih => intro ctx h; simpa [expand, exprName] using ih .paren (by simpa [headBare] using h)
+  | coalesce args => intro _ _; rfl
+
+/-- steps B and C do not change the name-giving data of a projection list -/
+theorem qcolProjs_spec (env : Env) :
+    ∀ (ps psB : List Proj), mapE (qcolProj env) ps = .ok psB → NamesStable env ps →
+      expandSpec env psB = expandSpec env ps ∧ (∀ e, Proj.item e none ∈ psB → headBare e = false) := by
+  intro ps
+  induction ps with
+  | nil => intro psB h _; simp [mapE] at h; subst h; exact ⟨rfl, by intro e he; simp at he⟩
+  | cons p rest ih =>
+    intro psB h hst
+    simp only [mapE] at h
+    obtain ⟨q, hq, h⟩ := bind_ok h
+    obtain ⟨qs, hqs, h⟩ := bind_ok h
+    simp [pure, Except.pure] at h
+    subst h
+    obtain ⟨h1, h2⟩ := ih qs hqs (fun e he => hst e (by simp [he]))
+    cases p with
+    | star t exc =>
+      simp [qcolProj] at hq
+      subst hq
+      refine ⟨by cases t <;> simp [expandSpec, h1], ?_⟩
+      intro e he
+      simp at he
+      exact h2 e he
+    | item e a =>
+      simp only [qcolProj] at hq
+      obtain ⟨e', he', hq⟩ := bind_ok hq
+      simp [pure, Except.pure] at hq
+      subst hq
+      obtain ⟨hn, hb⟩ := qcol_name env e e' he'
+      cases a with
+      | some a =>
+        refine ⟨by simp [expandSpec, h1], ?_⟩
+        intro x hx
+        simp at hx
+        exact h2 x hx
+      | none =>
+        refine ⟨by simp [expandSpec, h1, hn], ?_⟩
+        intro x hx
+        simp at hx
+        rcases hx with rfl | hx
+        · exact hb (hst e (by simp))
+        · exact h2 x hx
+
+theorem expandProjs_spec (env : Env) :
+    ∀ (ps : List Proj) (m : AMap) (i : Nat), (∀ e, Proj.item e none ∈ ps → headBare e = false) →
+      expandSpec env (expandProjs env m i ps).1 = expandSpec env ps := by
+  intro ps
+  induction ps with
+  | nil => intro _ _ _; rfl
+  | cons p rest ih =>
+    intro m i hb
+    cases p with
+    | star t exc =>
+      have := ih m (i + 1) (fun e he => hb e (by simp [he]))
+      cases t <;> simp [expandProjs, expandSpec, this]
+    | item e a =>
+      cases a with
+      | some a =>
+        have := ih ((a, expand env m .plain .root e, i + 1) :: m) (i + 1) (fun x hx => hb x (by simp [hx]))
+        simp [expandProjs, expandSpec, this]
+      | none =>
+        have := ih m (i + 1) (fun x hx => hb x (by simp [hx]))
+        simp [expandProjs, expandSpec, this, expand_name env m .plain e .root (hb e (by simp))]
+
+theorem buildCore_names (g : Gen) (env : Env) (srcs' : List Src) (jgs : List (Join × Bool)) (replaced : Bool)
+    (skip : List String) (s s' : Scope) (h : buildCore g env srcs' [] jgs replaced skip s = .ok s')
+    (hstar : hasStar s'.projs = false) (hst : NamesStable env s.projs) :
+    outNames s'.projs = overlay s.outer (nameAll g.colName 0 (expandSpec env s.projs)) := by
+  unfold buildCore at h
+  obtain ⟨projsB, hB1, h⟩ := bind_ok h
+  obtain ⟨_, _, h⟩ := bind_ok h
+  obtain ⟨_, _, h⟩ := bind_ok h
+  obtain ⟨_, _, h⟩ := bind_ok h
+  obtain ⟨_, _, h⟩ := bind_ok h
+  obtain ⟨_, _, h⟩ := bind_ok h
+  obtain ⟨projsD, hD, h⟩ := bind_ok h
+  split at h
+  · simp at h
+  · obtain ⟨_, _, h⟩ := bind_ok h
+    obtain ⟨_, _, h⟩ := bind_ok h
+    simp only [pure, Except.pure, Except.ok.injEq] at h
+    subst h
+    simp only at hstar ⊢
+    rw [hasStar_qualifyOutputs] at hstar
+    obtain ⟨hs1, hs2⟩ := qcolProjs_spec env s.projs projsB hB1 hst
+    have hs3 := expandProjs_spec env projsB [] 0 hs2
+    have hD' : applyStars env (expandProjs env [] 0 projsB).1 = .ok projsD := by simpa [applyStarsU] using hD
+    have hs4 := applyStars_names env _ projsD hD' hstar
+    rw [qualifyOutputs_names g.colName projsD 0 s.outer hstar, hs4, hs3, hs1]
 
 end SqlglotModel.Qualify
